@@ -1,0 +1,72 @@
+//go:build verif
+
+// Package verifapi re-exports internals of fs_db for the out-of-module
+// verification harness (build tag `verif` only).
+package verifapi
+
+import (
+	"context"
+	"strconv"
+
+	"github.com/glebziz/fs_db/internal/model"
+	"github.com/glebziz/fs_db/internal/model/sequence"
+	"github.com/glebziz/fs_db/internal/usecase/core"
+	"github.com/glebziz/fs_db/internal/utils/ptr"
+)
+
+// VList drives one key's committed version list through usecase/core.
+type VList struct {
+	u   *core.UseCase
+	key string
+}
+
+func NewVList() *VList {
+	return &VList{u: core.New(nil), key: "k"}
+}
+
+func (v *VList) Push(seq uint64) {
+	v.u.VerifStoreToTx(model.MainTxId, model.File{
+		Key:       v.key,
+		TxId:      model.MainTxId,
+		ContentId: strconv.FormatUint(seq, 10),
+		Seq:       sequence.Seq(seq),
+	})
+}
+
+func (v *VList) PopFront() (uint64, bool) {
+	f, ok := v.u.VerifPop(model.MainTxId, v.key, false)
+	return uint64(f.Seq), ok
+}
+
+func (v *VList) PopBack() (uint64, bool) {
+	f, ok := v.u.VerifPop(model.MainTxId, v.key, true)
+	return uint64(f.Seq), ok
+}
+
+// Collect runs the collector (usecase/core.DeleteOld) with horizon h.
+func (v *VList) Collect(h uint64) []uint64 {
+	files := v.u.DeleteOld(context.Background(), model.MainTxId, sequence.Seq(h))
+	res := make([]uint64, 0, len(files))
+	for _, f := range files {
+		res = append(res, uint64(f.Seq))
+	}
+
+	return res
+}
+
+// LastBefore is the snapshot lookup (usecase/core.Get with a BeforeSeq filter).
+func (v *VList) LastBefore(s uint64) (uint64, bool) {
+	f, err := v.u.Get(context.Background(), "-", v.key, model.FileFilter{
+		TxId:      ptr.Ptr(model.MainTxId),
+		BeforeSeq: ptr.Ptr(sequence.Seq(s)),
+	})
+	return uint64(f.Seq), err == nil
+}
+
+// Latest is the committed-latest lookup.
+func (v *VList) Latest() (uint64, bool) {
+	f, err := v.u.Get(context.Background(), "-", v.key, model.FileFilter{
+		TxId: ptr.Ptr(model.MainTxId),
+	})
+	return uint64(f.Seq), err == nil
+}
